@@ -15,23 +15,39 @@ def optChars (j : Json) : Except String (Option (List Char)) :=
   | Json.null => pure none
   | v => do return some (← v.getStr?).toList
 
-/-- `{"t":"path","p":…} | {"t":"paths","ps":[…]} | {"t":"file","c":…|null} | {"t":"files","cs":[…|null]} | {"t":"failed"}` -/
+/-- `{"t":"path","p":…} | {"t":"loc","loc":…,"file":…|null} | {"t":"locs","locs":[…],"file":…|null} | {"t":"paths","ps":[…]} | {"t":"file","c":…|null} | {"t":"files","cs":[…|null]} | {"t":"failed"}` -/
 def parseSource (j : Json) : Except String Source := do
   match (← getStr j "t") with
   | "path" => return .path (← getChars j "p")
   | "paths" => return .paths (← getCharsList j "ps")
+  -- a producer's location and the file part of the reference (`null`: none, `""`: bare trailing slash)
+  | "loc" => return .path (refPath (← getChars j "loc") (← optChars (← j.getObjVal? "file")))
+  | "locs" =>
+    let f ← optChars (← j.getObjVal? "file")
+    return .paths ((← getCharsList j "locs").map fun l => loopRefPath l f)
   | "file" => return .file (← optChars (← j.getObjVal? "c"))
   | "files" => return .files (← (← getArr j "cs").mapM optChars)
   | "failed" => return .failed
   | t => throw s!"unknown source {t}"
 
+/-- a declared reference: either by its spellings (`abs`,`rel`,`relActive`,`kind`; older replays) or by its TEXT
+(`text`, `consumer`, `direct`): then the model reads the text itself (`declOfText`) -/
 def parseDecl (j : Json) : Except String Decl := do
-  let abs ← getChars j "abs"
-  let rel ← getChars j "rel"
-  let ra ← getBool j "relActive"
-  let kind ← parseKind (← getStr j "kind")
   let src ← parseSource (← j.getObjVal? "source")
-  return { abs := abs, rel := rel, relActive := ra, kind := kind, source := src }
+  match j.getObjVal? "text" with
+  | .ok t =>
+    let text := (← t.getStr?).toList
+    let consumer ← getNat j "consumer"
+    let direct ← getBool j "direct"
+    match declOfText consumer direct text src with
+    | some d => return d
+    | none => throw s!"not a reference: {String.ofList text}"
+  | .error _ =>
+    let abs ← getChars j "abs"
+    let rel ← getChars j "rel"
+    let ra ← getBool j "relActive"
+    let kind ← parseKind (← getStr j "kind")
+    return { abs := abs, rel := rel, relActive := ra, kind := kind, source := src }
 
 def resultJson (r : Result) : Json :=
   jobj [("out", jchars r.out), ("unused", jarr (r.unused.map jchars)), ("unresolved", jbool r.unresolved)]
@@ -50,6 +66,17 @@ def handle (j : Json) : Except String Json := do
                  ("functional", jbool (functionalB (entries refs))),
                  ("tokens", jarr ((usedKeys p).map jchars)),
                  ("roundtrip", jbool (renderK p == args))]
+  | "spell" =>
+    -- how the code reads the text of a declared reference
+    let text ← getChars j "text"
+    let consumer ← getNat j "consumer"
+    let direct ← getBool j "direct"
+    match parseRef consumer direct text with
+    | none => return jobj [("ok", jbool false)]
+    | some p =>
+      return jobj [("ok", jbool true), ("abs", jchars p.absSpelling), ("rel", jchars p.relSpelling),
+                   ("relActive", jbool (p.relActive consumer)), ("file", jopt jchars p.file),
+                   ("stage", jopt (fun n => Json.num (JsonNumber.fromNat n)) p.stage), ("method", jchars p.method)]
   | "methods" => return jobj [("methods", jarr (methods.map jchars))]
   | _ => throw s!"unknown op {op}"
 
